@@ -116,8 +116,10 @@ impl ReplicationFetcher {
         // Remove any outdated entries in `to_be_fetched`
         self.remove_stored_keys(locally_stored_keys);
 
-        // Special case for single new key
-        if new_incoming_keys.len() == 1 {
+        // Special case for single new key: a fresh replicate of one record. A periodic (multi-record)
+        // advertisement that merely filters down to one new key goes through the range check
+        // and the parallel fetch limit like any other.
+        if total_incoming_keys == 1 && new_incoming_keys.len() == 1 {
             let (record_address, record_type) = new_incoming_keys[0].clone();
 
             let new_data_key = (record_address.to_record_key(), record_type);
